@@ -47,7 +47,9 @@ type RiskControlRequest struct {
 }
 
 func (r *RiskControlRequest) Encode(buf *bytes.Buffer) error {
-	codec.WriteString[uint16](buf, r.UniqueOrderID)
+	if err := codec.WriteString[uint16](buf, r.UniqueOrderID); err != nil {
+		return err
+	}
 	codec.WriteFixedString(buf, r.ClOrdID, 16)
 	codec.WriteFixedString(buf, r.MarketID, 3)
 	codec.WriteFixedString(buf, r.SecurityID, 12)
@@ -55,7 +57,9 @@ func (r *RiskControlRequest) Encode(buf *bytes.Buffer) error {
 	binary.Write(buf, binary.BigEndian, r.OrderType)
 	binary.Write(buf, binary.BigEndian, r.Price)
 	binary.Write(buf, binary.BigEndian, r.Qty)
-	codec.WriteStringList[uint16, uint16](buf, r.ExtraInfo)
+	if err := codec.WriteStringList[uint16, uint16](buf, r.ExtraInfo); err != nil {
+		return err
+	}
 	r.SubOrder.Encode(buf)
 	return nil
 }
